@@ -561,6 +561,11 @@ func TestC09(t *testing.T) {
 				c.W.Ents = append(c.W.Ents, e)
 				continue
 			}
+			if i > 0 && rapid.IntRange(0, 3).Draw(t, l+"-twin-content") == 0 {
+				// word for word the configuration of the first certificate - except that it names another profile, which has
+				// its own rules (every certificate is judged by the profile it names, however much it resembles another one)
+				subj = append([]core.RDN(nil), c.W.Ents[0].Subject...)
+			}
 			p := core.Profile{File: fmt.Sprintf("p%d.yaml", i), Name: fmt.Sprintf("prof%d", i)}
 			if i > 0 && rapid.IntRange(0, 2).Draw(t, l+"-namevariant") == 0 {
 				// profile names are exact: these differ from profile 0's name in case / surrounding blanks only
